@@ -75,10 +75,14 @@ def step (st : St) (op : String) (args : List String) : Option (St × String) :=
     pure (flow st (finishAssign4 (← strHex? eni) (← int? n)) (← bool? fail))
   | "fassign6", [eni, n, fail] => do
     pure (flow st (finishAssign6 (← strHex? eni) (← int? n)) (← bool? fail))
-  -- the same flows through the real OpenAPI wrappers (harness: scripted HTTP transport); fail: 0 ok, 1 server error, 2 business code
+  -- the same flows through the real OpenAPI wrappers (harness: scripted HTTP transport); fail: 0 ok, 1 server error, 2 business code, 3 throttled until the back-off is exhausted
   | "acreate", [vsw, trunk, erdma, sgs, rg, ipc, ip6c, dor, sdc, tags, fail] => do
     let p ← params? [vsw, trunk, erdma, sgs, rg, ipc, ip6c, dor, sdc]
     pure (flow st (finishCreate p (← tags? tags)) (← failTok? fail))
+  | "bassign4", [eni, n, fail] => do   -- the v1 wrappers (AssignPrivateIPAddress / AssignIpv6Addresses)
+    pure (flow st (finishAssign4 (← strHex? eni) (← int? n)) (← failTok? fail))
+  | "bassign6", [eni, n, fail] => do
+    pure (flow st (finishAssign6 (← strHex? eni) (← int? n)) (← failTok? fail))
   | "aassign4", [eni, n, fail] => do
     pure (flow st (finishAssign4 (← strHex? eni) (← int? n)) (← failTok? fail))
   | "aassign6", [eni, n, fail] => do
@@ -89,7 +93,7 @@ def step (st : St) (op : String) (args : List String) : Option (St × String) :=
   | _, _ => none
 where
   failTok? (s : String) : Option Bool :=
-    if s = "0" then some false else if s = "1" ∨ s = "2" then some true else none
+    if s = "0" then some false else if s = "1" ∨ s = "2" ∨ s = "3" then some true else none
   flow (st : St) (r : Option HashInput) (fail : Bool) : St × String :=
     match r with
     | none => (st, "err")
